@@ -125,6 +125,12 @@ type TunPlan struct {
 	// its last packet: 1 = the terminating chunk travels in the same write as the last piece
 	// of the packet stream, 2 = in a write of its own
 	EndBody int
+	// ForeignHosts: addresses that look like this tunnel's by name but are another tunnel's
+	ForeignHosts map[string]bool
+	// StartGate / SecondGate, when set, hold back the first connection of the tunnel / the
+	// second request of a legacy pair until they return true (late joiners, slow clients)
+	StartGate  func() bool
+	SecondGate func() bool
 	// QuietBefore[i]: the client is quiet for that long (simulated time passes on the open
 	// tunnel) before it sends transport message i (segment i with Segs, else packet i)
 	QuietBefore map[int]time.Duration
@@ -348,6 +354,9 @@ func StartTunnels(c *Ctx, plans []*TunPlan) []*Tun {
 
 func (t *Tun) setupEnabled() bool {
 	cl, p := t.Client, t.Plan
+	if t.step == 0 && p.StartGate != nil && !p.StartGate() {
+		return false
+	}
 	if p.Transport == "ws" {
 		return t.step == 0
 	}
@@ -355,6 +364,9 @@ func (t *Tun) setupEnabled() bool {
 	case 0:
 		return true
 	case 1:
+		if p.SecondGate != nil && !p.SecondGate() {
+			return false
+		}
 		if p.INFirst {
 			return cl.Status("in") == 200
 		}
@@ -415,6 +427,9 @@ func RunTunnels(c *Ctx, tuns []*Tun, maxSteps int) {
 func Drain(c *Ctx, maxSteps int) {
 	c.S.Draining = true
 	for _, e := range c.S.Ends() {
+		if e.KeepHold {
+			continue // a peer that never reads again stays that way
+		}
 		e.HoldDeliver, e.HoldWrites = false, false
 	}
 	c.S.Run(nil, maxSteps, 20*time.Second)
@@ -804,6 +819,9 @@ func planString(p *TunPlan, n int) string {
 }
 
 func belongs(p *TunPlan, addr string) bool {
+	if p.ForeignHosts[addr] {
+		return false
+	}
 	return addr == p.AllowedHost || addr == p.DeniedHost || addr == p.UnreachHost || strings.Contains(addr, "-"+p.Name+".")
 }
 
